@@ -314,4 +314,88 @@ def corner_patches(repo: Repo) -> RuleRun:
 
 corner_patches.rule_id = "C05.CORNER-PATCHES"
 
-RULES = [lookup_before_create, dense_index, tolerance_siblings, eq_hash, slave_only, corner_patches]
+def add_scenarios(repo: Repo) -> RuleRun:
+    """Abstract run of VertexList.add over sequences of (position, slave patches): positions are
+    integers on a line (coincident iff equal), everything else is the repository's own code.
+    Mesh._add_vertices always hands over a list (possibly empty), so the mixed use of the
+    ``slave_patches=None`` form after a slave duplicate (a path assembly never takes, and which
+    creates a fresh master vertex on every call) is deliberately not part of the scenarios."""
+    r = RuleRun(PROP, "C05.ADD-SCENARIOS", floor=10, what="VertexList.add on symbolic insertion sequences: sharing iff same position and same slave-patch set, dense indexes")
+    from .c18 import dist_hook
+
+    vl_cls = repo.cls("lists.vertex_list.VertexList")
+    add = repo.func("lists.vertex_list.VertexList.add")
+
+    def run_sequence(seq):
+        vl = Obj("vertex_list", cls=vl_cls)
+        vl.set("vertices", [])
+        vl.set("duplicated", [])
+
+        def hook(ev, call: ast.Call, name):
+            if name in ("Vertex.from_point", "Vertex") or (name or "").endswith("Vertex.from_point"):
+                args = [ev.eval(a) for a in call.args]
+                v = Obj(f"V{args[1]}")
+                v.set("position", args[0].get("position") if isinstance(args[0], Obj) else args[0])
+                v.set("index", args[1])
+                return v
+            return dist_hook()(ev, call, name)
+
+        out = []
+        for pos, patches in seq:
+            pt = Obj("point")
+            pt.set("position", pos)
+            pt.set("projected_to", [])
+            ev = Evaluator(repo=repo, module=add.module, call_hook=hook)
+            try:
+                v = ev.call_funcinfo(add, [vl, pt, None if patches is None else list(patches)])
+            except Raised as err:
+                return ("raised", err.exc_name), vl
+            except NotEvaluable as err:
+                raise AnalysisError(f"VertexList.add not evaluable on the symbolic model: {err}") from err
+            out.append(v)
+        return out, vl
+
+    scenarios = [
+        ("same point twice, no merge", [(1, []), (1, [])]),
+        ("two different points", [(1, []), (2, [])]),
+        ("same point twice, no patch list", [(1, None), (1, None)]),
+        ("slave copy then master side", [(1, ["s"]), (1, []), (1, ["s"]), (1, [])]),
+        ("master side then slave copy", [(1, []), (1, ["s"]), (1, []), (1, ["s"])]),
+        ("two slave patches in either order", [(1, ["Wall_s", "inlet_s"]), (1, ["inlet_s", "Wall_s"])]),
+        ("two different slave sets at one point, revisited", [(1, ["a"]), (1, ["b"]), (1, ["b"]), (1, ["a"]), (1, ["a", "b"]), (1, ["b", "a"])]),
+        ("several points and patch sets interleaved", [(1, ["a"]), (2, ["a"]), (1, []), (2, ["a"]), (3, []), (1, ["a"]), (3, [])]),
+        ("slave set at another point is not reused", [(1, ["a"]), (2, ["a"]), (2, [])]),
+    ]
+    for label, seq in scenarios:
+        res, vl = run_sequence(seq)
+        if isinstance(res, tuple):
+            r.bad(add, f"VertexList.add raises {res[1]} for the sequence '{label}': {seq}", add.node, key=label)
+            continue
+        problems = []
+        # expected partition: same vertex iff same position and same patch set (None == 'not a slave corner': shares with the master copy)
+        def keyof(pos, patches):
+            return (pos, frozenset(patches) if patches else frozenset())
+
+        groups = {}
+        for (pos, patches), v in zip(seq, res):
+            groups.setdefault(keyof(pos, patches), []).append(v)
+        for k, vs in groups.items():
+            if any(v is not vs[0] for v in vs):
+                problems.append(f"corners at position {k[0]} with slave patches {sorted(k[1])} got different vertices {[v._name for v in vs]}")
+        reps = {}
+        for k, vs in groups.items():
+            if vs[0]._name in reps and reps[vs[0]._name] != k:
+                problems.append(f"vertex {vs[0]._name} is shared between {reps[vs[0]._name]} and {k}")
+            reps[vs[0]._name] = k
+        verts = vl.get("vertices")
+        if [v.get("index") for v in verts] != list(range(len(verts))):
+            problems.append(f"vertex indexes {[v.get('index') for v in verts]} are not the list positions")
+        if len(verts) != len(groups):
+            problems.append(f"{len(verts)} vertices created for {len(groups)} distinct (position, slave set) classes")
+        r.check(not problems, add, f"{label}: {len(verts)} vertices", f"VertexList.add, sequence '{label}' {seq}: " + "; ".join(problems), add.node, key=label)
+    return r
+
+
+add_scenarios.rule_id = "C05.ADD-SCENARIOS"
+
+RULES = [lookup_before_create, dense_index, tolerance_siblings, eq_hash, slave_only, corner_patches, add_scenarios]
